@@ -110,6 +110,17 @@ def run_sampler(case, objects=None):
     kwargs = dict(kwargs, seed=case['seed'])
     if ctor in ('explicit', 'fromstr_explicit') or not case['aa']:
         kwargs['all_atom'] = case['aa']
+    # compute_mass (constructor, PTE masses) completes a copy of every fragment: record the elements of the completed
+    # copy in node order (compute_mass looks rebuild_h_atoms up in pysmiles_utils; sample() has its own binding)
+    import cgsmiles.pysmiles_utils as pu
+    completed = []
+    orig_pu_h = pu.rebuild_h_atoms
+
+    def ctor_rebuild(mol, *a, **kw):
+        r = orig_pu_h(mol, *a, **kw)
+        completed.append([str(d.get('element', '')) for _, d in mol.nodes(data=True)])
+        return r
+    pu.rebuild_h_atoms = ctor_rebuild
     try:
         if ctor.startswith('fromstr'):
             sampler = smod.MoleculeSampler.from_fragment_string(case['frags'], **kwargs)
@@ -119,6 +130,9 @@ def run_sampler(case, objects=None):
     except Exception as exc:
         out['exc'] = (type(exc).__name__, 0)
         return out
+    finally:
+        pu.rebuild_h_atoms = orig_pu_h
+    out['completed'] = completed
     out['init'] = {'poly': dict(sampler.polymer_reactivities),
                    'fragreact': {k: dict(v) for k, v in sampler.fragment_reactivities.items()},
                    'term': list(sampler.terminal_bonds),
@@ -241,10 +255,10 @@ def fr_lit(d):
 
 TRIVIAL = ('{| k_aa := false; k_frags := []; k_poly := []; k_fragreact := []; k_term := []; k_user_masses := None; '
            'k_target := (0x0p+0)%float; k_start := None; k_init := None; k_picks0 := []; k_steps := []; k_obs := []; '
-           'k_added := []; k_det := []; k_exact := []; k_out := OExc (S "OSError") 0 |}')   # consistent: model and oracle agree
+           'k_added := []; k_det := []; k_completed := []; k_hist := []; k_exact := []; k_out := OExc (S "OSError") 0 |}')   # consistent: model and oracle agree
 
 
-def case_lit(case, impl, det=()):
+def case_lit(case, impl, det=(), hist=()):
     if 'skip' in impl or impl.get('unrecorded'):
         return None
     frags = lit.lst([lit.pair(lit.s(nm), template_lit(g)) for nm, g in impl['templates'].items()])
@@ -264,7 +278,7 @@ def case_lit(case, impl, det=()):
     masses = case.get('masses')
     return ('{| k_aa := %s; k_frags := %s; k_poly := %s; k_fragreact := %s; k_term := %s; k_user_masses := %s; '
             'k_target := %s; k_start := %s; k_init := %s; k_picks0 := %s; k_steps := %s; k_obs := %s; k_added := %s; '
-            'k_det := %s; k_exact := %s; k_out := %s |}'
+            'k_det := %s; k_completed := %s; k_hist := %s; k_exact := %s; k_out := %s |}'
             % (lit.b(case['aa']), frags, fdict_lit(case['poly']), fr_lit(case['fragreact']),
                lit.lst([lit.s(x) for x in case['term']]),
                'None' if masses is None else '(Some %s)' % fdict_lit(masses),
@@ -272,7 +286,9 @@ def case_lit(case, impl, det=()):
                lit.lst([lit.nat(i) for i in impl.get('picks0', [])]),
                lit.lst([lit.lst([lit.nat(i) for i in st]) for st in impl.get('steps', [])]),
                obs, lit.lst([lit.s(x) for x in impl.get('added', [])]),
-               lit.lst([lit.b(x) for x in det]), lit.lst([lit.b(x) for x in impl.get('exact', [])]), outc))
+               lit.lst([lit.b(x) for x in det]),
+               lit.lst([lit.lst([lit.s(e) for e in els]) for els in impl.get('completed', [])]),
+               lit.lst([lit.b(x) for x in hist]), lit.lst([lit.b(x) for x in impl.get('exact', [])]), outc))
 
 
 # ------------------------------------------------------------------------------- generator
@@ -519,7 +535,7 @@ class SamplerProp(common.Prop):
         return run_sampler(case)
 
     def coq_case(self, case, impl):
-        return case_lit(case, impl, impl.get('det', ())) or TRIVIAL
+        return case_lit(case, impl, impl.get('det', ()), impl.get('hist', ())) or TRIVIAL
 
     def nontrivial(self, case, impl):
         return 'final' in impl and len(impl.get('added', [])) >= 1
